@@ -35,6 +35,10 @@ func c12Docs(r *Rand, n int, plain bool) []string {
 	var docs []string
 	for j := 0; j < n; j++ {
 		body := g.Doc(DocID(r, 0, j)).YAML()
+		if r.Chance(1, 8) {
+			// output that does not fit one buffer
+			body += "pad: \"" + strings.Repeat("lorem ", r.Range(800, 3000)) + "\"\n"
+		}
 		if j > 0 {
 			body = "---\n" + body
 		} else if r.Chance(1, 5) {
